@@ -100,7 +100,7 @@ func checkC10(c *Ctx) {
 	// the deepest inputs of this check need a few GiB in the worker: a wider memory budget than the default
 	c.Pool.Env = append(c.Pool.Env, "ZNWORKER_RSS_LIMIT_MB=10240")
 	c.Pool.LongRetry = true
-	c.rule = "API driver: every receiver of a 53-value pool (dictionaries with unusual but legal keys - the empty text, a blank, NUL, a quote, number spellings, a 200-character key - among them) (all value types incl. objects, types, library functions, exception, Go value) x every member name extracted from the working tree (+unknown names) x {get, set, call, new, fn, str, dup, twin (continue on the copy), cmp, json} x argument tuples (arity 0..1 exhaustive over a 33-value boundary pool, arity 2 exhaustive in thorough, arity 2..4 random; for list / dictionary / text receivers additionally every position and position pair in [-2, length+2]), applied as step sequences on one receiver; plus scripted histories that copy a list / dictionary of 0..9 elements and alternate insertions and removals between the value and its copy, displaying both. Program driver: one- and two-statement Zn programs applying every operator / index / member / call / new / throw / loop form to input variables drawn from the same pools; plus user methods / type methods whose body ends in each of 25 failures (with no handler, a handler without and with 输出) whose call is placed in each of 26 consumer positions. Whole-program driver: programs made of definitions / comments / imports only and programs yielding each kind of value, through Execute and through the playground HTTP handler; runaway recursion (plain, mutual, through a type method, through a constructor) without a logical budget. Input-variable driver: texts without any statement (line breaks, comments, imports only), every right-hand-side kind, failing and ill-formed texts through ExecVarInputText. Traversal driver: every mutating list / dictionary method applied to the collection a 遍历 is running over (lists of 1, 2, 3, 6 items; directly, in a called method, through an alias parameter). Host driver: 21 programs served by ZnHttpHandler that answer with an HTTP响应 object whose 头部 / 状态码 / 内容 have the wrong type or whose status is 0, negative, fractional, 99, 1000, 1e19, infinite or NaN. Violation = recovered Go panic, nil element without error, worker exit, or hang. distinct_nontrivial = distinct (receiver kind, step kind, member, arg kinds, outcome kind)"
+	c.rule = "API driver: every receiver of a 53-value pool (dictionaries with unusual but legal keys - the empty text, a blank, NUL, a quote, number spellings, a 200-character key - among them) (all value types incl. objects, types, library functions, exception, Go value) x every member name extracted from the working tree (+unknown names) x {get, set, call, new, fn, str, dup, twin (continue on the copy), cmp, json} x argument tuples (arity 0..1 exhaustive over a 33-value boundary pool, arity 2 exhaustive in thorough, arity 2..4 random; for list / dictionary / text receivers additionally every position and position pair in [-2, length+2]; for dictionary receivers every member with key paths that begin with the receiver's own keys), applied as step sequences on one receiver; plus scripted histories that copy a list / dictionary of 0..9 elements and alternate insertions and removals between the value and its copy, displaying both. Program driver: one- and two-statement Zn programs applying every operator / index / member / call / new / throw / loop form to input variables drawn from the same pools; plus user methods / type methods whose body ends in each of 25 failures (with no handler, a handler without and with 输出) whose call is placed in each of 26 consumer positions. Whole-program driver: programs made of definitions / comments / imports only and programs yielding each kind of value, through Execute and through the playground HTTP handler; runaway recursion (plain, mutual, through a type method, through a constructor) without a logical budget. Input-variable driver: texts without any statement (line breaks, comments, imports only), every right-hand-side kind, failing and ill-formed texts through ExecVarInputText. Traversal driver: every mutating list / dictionary method applied to the collection a 遍历 is running over (lists of 1, 2, 3, 6 items; directly, in a called method, through an alias parameter). Host driver: 21 programs served by ZnHttpHandler that answer with an HTTP响应 object whose 头部 / 状态码 / 内容 have the wrong type or whose status is 0, negative, fractional, 99, 1000, 1e19, infinite or NaN. Violation = recovered Go panic, nil element without error, worker exit, or hang. distinct_nontrivial = distinct (receiver kind, step kind, member, arg kinds, outcome kind)"
 	c.assumptions = []string{"library functions run inside the worker's private scratch directory", "member tables are read from /repo sources at check time by a string-literal scan"}
 	rng := c.Rand("c10")
 	members := memberNames()
@@ -149,6 +149,21 @@ func checkC10(c *Ctx) {
 					steps = append(steps, Step{Kind: "call", Name: m, Args: []Val{Num(float64(i)), Text("x")}})
 					for j := -2; j <= L+2; j++ {
 						steps = append(steps, Step{Kind: "call", Name: m, Args: []Val{Num(float64(i)), Num(float64(j))}})
+					}
+				}
+			}
+			// key paths of a dictionary receiver: every member called with the receiver's own keys
+			// first (a path that starts inside the dictionary and leads to whatever lies there - a
+			// number, a text, a list, 空 - and then goes on)
+			if rv.T == "dict" {
+				for ki, kr := range rv.KeysR {
+					k := Text(StringOf(kr))
+					steps = append(steps, Step{Kind: "call", Name: m, Args: []Val{k}}, Step{Kind: "call", Name: m, Args: []Val{k, Text("x")}}, Step{Kind: "call", Name: m, Args: []Val{k, k}},
+						Step{Kind: "call", Name: m, Args: []Val{k, Num(1)}}, Step{Kind: "call", Name: m, Args: []Val{k, Text("x"), Text("y")}}, Step{Kind: "call", Name: m, Args: []Val{k, Text(""), Text("")}})
+					for kj, kr2 := range rv.KeysR {
+						if kj != ki {
+							steps = append(steps, Step{Kind: "call", Name: m, Args: []Val{k, Text(StringOf(kr2))}}, Step{Kind: "call", Name: m, Args: []Val{k, Text(StringOf(kr2)), k}})
+						}
 					}
 				}
 			}
